@@ -54,8 +54,9 @@ def gen(run):
 
 def to_harness(idx, fam, c, seed):
     big = set(c["big"])
-    forms = (lambda f, i: (idx * 7 + f * 3 + i + seed) % 5 if fam in ("sets3", "lists3", "glob3", "glob4") else 0)
-    files = render_disk(c["disk"], c["pats"], big, forms=lambda f, i: min(forms(f, i), 2) if forms(f, i) < 3 else 0)
+    # spelling of a plain include: relative (3 in 8), absolute, home-relative, absolute with "/./", absolute with "/sub/../", "./relative"
+    forms = (lambda f, i: (idx * 11 + f * 3 + i + seed) % 8 if fam in ("sets3", "lists3", "glob3", "glob4") else 0)
+    files = render_disk(c["disk"], c["pats"], big, forms=lambda f, i: forms(f, i) if forms(f, i) <= 5 else 0)
     root = NAMES[1]
     hc = {"id": str(idx), "files": files, "fresh": False,
           "depth": c["lim"] if c["lim"] <= len(c["disk"]) else 0,
